@@ -1,6 +1,6 @@
 #!/bin/bash
 # usage: new_batch.sh Cxx Cyy ...   creates /tmp/wt_n<xx> worktrees (private target copy) and prompt files
-cd /tmp/wt_conf && git checkout -q -- . && rm -f tests/demo_*.rs
+cd /tmp/wt_conf && git checkout -q -- . && rm -f tests/demo_*.rs target/debug/deps/demo_* target/debug/demo_*; rm -rf /tmp/wt_conf/target/debug/incremental
 HEAD=$(git -C /repo rev-parse HEAD); git -C /tmp/wt_conf checkout -q --detach $HEAD 2>/dev/null
 for p in "$@"; do
   n=${p#C}; wt=/tmp/wt_n$n
